@@ -24,6 +24,12 @@ type CodecEvent struct {
 	Pos    token.Pos
 	Instr  ssa.Instruction
 	Prefix string // for W of a constant string: its text
+	// Val is the encoded value (writes through PutUintNN); TmpAlloc the local fixed-size array that is the buffer of this
+	// event (PutUintNN) or the source of this stream write: a value staged in such an array and then written to the stream.
+	Val      *Term
+	TmpAlloc ssa.Value
+	// Delegate is the repository encoder whose whole output is written here (append(buf, x.Serialize()...)).
+	Delegate *ssa.Function
 }
 
 func (e CodecEvent) Sig() string {
@@ -417,11 +423,58 @@ func (p *Program) CodecEvents(fn *ssa.Function) []CodecEvent {
 						break
 					}
 				}
+				// a decoder that hands its whole input to the decoder of the same type (parse(raw) { r, err := pkg.Decode(raw); .. }):
+				// what that decoder reads is what this one reads
+				if sc := x.Call.StaticCallee(); sc != nil && sc != fn && IsRepoFunc(sc) && !p.codecBusy[sc] && len(x.Call.Args) == 1 && isByteSlice(x.Call.Args[0].Type()) &&
+					sameDecodedType(fn, sc) && fi.Term(x.Call.Args[0]).K == KParam {
+					if p.codecBusy == nil {
+						p.codecBusy = map[*ssa.Function]bool{}
+					}
+					p.codecBusy[sc] = true
+					sub := p.CodecEvents(sc)
+					delete(p.codecBusy, sc)
+					for _, e := range sub {
+						if e.Op != "R" {
+							continue
+						}
+						e.Instr, e.Pos = x, x.Pos()
+						out = append(out, e)
+					}
+					continue
+				}
+				// a straight-line helper (or closure) of the same package that writes to or reads from the same stream
+				if sc := x.Call.StaticCallee(); sc != nil && sc != fn && sc.Pkg == fn.Pkg && p.Transparent(sc) && !p.codecBusy[sc] && hasStreamHandle(sc) && !hasByteSliceArg(&x.Call) {
+					if p.codecBusy == nil {
+						p.codecBusy = map[*ssa.Function]bool{}
+					}
+					p.codecBusy[sc] = true
+					sub := p.CodecEvents(sc)
+					delete(p.codecBusy, sc)
+					for _, e := range sub {
+						if e.Off != "" {
+							continue // not a stream event
+						}
+						if e.Val != nil {
+							if vt := fi.InstantiateTerm(e.Val, x); vt != nil {
+								e.Val = vt
+								e.Field = innerField(vt)
+								e.Float = containsFloatBits(vt, "math.Float64bits")
+							}
+						}
+						e.Instr, e.Pos, e.TmpAlloc = x, x.Pos(), nil
+						out = append(out, e)
+					}
+					continue
+				}
 				if w, order, put, ok := byteOrderOf(name); ok {
 					buf := fi.Term(x.Call.Args[1])
 					if put {
 						vt := fi.Term(x.Call.Args[2])
-						out = append(out, CodecEvent{Op: "W", Width: w, Order: order, Float: containsFloatBits(vt, "math.Float64bits"), Field: innerField(vt), Off: offsetOf(buf), Pos: x.Pos(), Instr: x})
+						ev := CodecEvent{Op: "W", Width: w, Order: order, Float: containsFloatBits(vt, "math.Float64bits"), Field: innerField(vt), Off: offsetOf(buf), Pos: x.Pos(), Instr: x, Val: vt}
+						if buf.K == KSlice && buf.A[0].K == KAlloc && fixedArrayLen(buf.A[0].Typ) == w {
+							ev.TmpAlloc = buf.A[0].Val
+						}
+						out = append(out, ev)
 					} else {
 						fl := false
 						if refs := x.Referrers(); refs != nil {
@@ -449,7 +502,7 @@ func (p *Program) CodecEvents(fn *ssa.Function) []CodecEvent {
 							if field == "?" {
 								if sl, ok := x.Call.Args[0].(*ssa.Slice); ok {
 									if al, ok := sl.X.(*ssa.Alloc); ok {
-										field = destField(fi, firstLoadOf(al), 0)
+										field = allocDestField(fi, al)
 									}
 								}
 							}
@@ -467,8 +520,12 @@ func (p *Program) CodecEvents(fn *ssa.Function) []CodecEvent {
 					case "append":
 						// append(x, y...) with y a byte slice: a write of y after x
 						if len(x.Call.Args) == 2 {
-							if st, ok := x.Call.Args[1].Type().Underlying().(*types.Slice); ok {
-								if bt, ok := st.Elem().Underlying().(*types.Basic); ok && bt.Kind() == types.Uint8 {
+							isStr := false
+							if bt, ok := x.Call.Args[1].Type().Underlying().(*types.Basic); ok && bt.Info()&types.IsString != 0 && isByteSlice(x.Call.Args[0].Type()) {
+								isStr = true
+							}
+							if st, ok := x.Call.Args[1].Type().Underlying().(*types.Slice); ok || isStr {
+								if bt, ok := elemBasic(st); isStr || ok && bt.Kind() == types.Uint8 {
 									base := fi.Term(x.Call.Args[0])
 									src := fi.Term(x.Call.Args[1])
 									if pfx := constStringIn(base); pfx != "" {
@@ -483,6 +540,11 @@ func (p *Program) CodecEvents(fn *ssa.Function) []CodecEvent {
 									}
 									if (src.K == KPure || src.K == KCall) && strings.HasSuffix(src.Callee(), ").Serialize") {
 										ev.Field = "Serialize(" + innerField(src) + ")"
+										if sc, ok := x.Call.Args[1].(*ssa.Call); ok {
+											if callee := sc.Call.StaticCallee(); callee != nil && IsRepoFunc(callee) {
+												ev.Delegate = callee
+											}
+										}
 									}
 									if src.K == KSlice && (src.A[0].K == KPure || src.A[0].K == KCall) && strings.HasSuffix(src.A[0].Callee(), ").Serialize") {
 										ev.Field = "Serialize()" + sliceSuffix(src)
@@ -502,7 +564,11 @@ func (p *Program) CodecEvents(fn *ssa.Function) []CodecEvent {
 					if w <= 0 {
 						w = -1
 					}
-					out = append(out, CodecEvent{Op: "W", Width: w, Field: innerField(src), Pos: x.Pos(), Instr: x})
+					ev := CodecEvent{Op: "W", Width: w, Field: innerField(src), Pos: x.Pos(), Instr: x}
+					if src.K == KSlice && src.A[0].K == KAlloc && w > 0 {
+						ev.TmpAlloc = src.A[0].Val
+					}
+					out = append(out, ev)
 				case "(*bytes.Buffer).WriteString":
 					out = append(out, CodecEvent{Op: "W", Width: -1, Field: innerField(fi.Term(x.Call.Args[1])), Pos: x.Pos(), Instr: x})
 				case "(*bytes.Buffer).WriteByte":
@@ -533,7 +599,7 @@ func (p *Program) CodecEvents(fn *ssa.Function) []CodecEvent {
 						if al, ok := mi.X.(*ssa.Alloc); ok {
 							dt = al.Type().Underlying().(*types.Pointer).Elem()
 							field = al.Comment
-							if f := destField(fi, firstLoadOf(al), 0); f != "?" {
+							if f := allocDestField(fi, al); f != "?" {
 								field = f
 							}
 						}
@@ -584,7 +650,92 @@ func (p *Program) CodecEvents(fn *ssa.Function) []CodecEvent {
 		}
 	}
 	sort.SliceStable(out, func(i, j int) bool { return out[i].Pos < out[j].Pos })
+	// a value staged in a local array (PutUintNN(tmp[:], v)) and then written to the stream (buf.Write(tmp[:])) is one
+	// write of v to the stream
+	for i := 0; i < len(out); i++ {
+		e := out[i]
+		if e.TmpAlloc == nil || e.Val != nil || e.Op != "W" {
+			continue
+		}
+		for j := i - 1; j >= 0; j-- {
+			st := out[j]
+			if st.TmpAlloc == e.TmpAlloc && st.Val != nil && st.Width == e.Width && st.Off == "#0" && Dominates(st.Instr, e.Instr) {
+				out[i].Order, out[i].Float, out[i].Field, out[i].Val = st.Order, st.Float, st.Field, st.Val
+				out = append(out[:j], out[j+1:]...)
+				i--
+				break
+			}
+		}
+	}
 	return out
+}
+
+// sameDecodedType: both functions return (T, error) or (T, n, error) for the same named struct type T.
+func sameDecodedType(a, b *ssa.Function) bool {
+	ra, rb := a.Signature.Results(), b.Signature.Results()
+	if ra.Len() < 2 || rb.Len() < 2 {
+		return false
+	}
+	ta, tb := ra.At(0).Type(), rb.At(0).Type()
+	if _, ok := ta.Underlying().(*types.Struct); !ok {
+		return false
+	}
+	return types.Identical(ta, tb) && isErrorType(ra.At(ra.Len()-1).Type()) && isErrorType(rb.At(rb.Len()-1).Type())
+}
+
+func elemBasic(st *types.Slice) (*types.Basic, bool) {
+	if st == nil {
+		return nil, false
+	}
+	bt, ok := st.Elem().Underlying().(*types.Basic)
+	return bt, ok
+}
+
+func hasByteSliceArg(c *ssa.CallCommon) bool {
+	for _, a := range c.Args {
+		if isByteSlice(a.Type()) {
+			return true
+		}
+	}
+	return false
+}
+
+// hasStreamHandle: the function receives or captures a *bytes.Buffer or *bytes.Reader.
+func hasStreamHandle(fn *ssa.Function) bool {
+	is := func(t types.Type) bool {
+		for i := 0; i < 2; i++ {
+			if pt, ok := t.Underlying().(*types.Pointer); ok {
+				t = pt.Elem()
+			}
+		}
+		s := t.String()
+		return s == "bytes.Buffer" || s == "bytes.Reader"
+	}
+	for _, q := range fn.Params {
+		if is(q.Type()) {
+			return true
+		}
+	}
+	for _, q := range fn.FreeVars {
+		if is(q.Type()) {
+			return true
+		}
+	}
+	return false
+}
+
+// allocDestField: where the value read into a local ends up, judged by the first of its loads that reaches a named destination.
+func allocDestField(fi *FuncInfo, al *ssa.Alloc) string {
+	if refs := al.Referrers(); refs != nil {
+		for _, r := range *refs {
+			if ld, ok := r.(*ssa.UnOp); ok && ld.Op == token.MUL {
+				if f := destField(fi, ld, 0); f != "?" {
+					return f
+				}
+			}
+		}
+	}
+	return destField(fi, firstLoadOf(al), 0)
 }
 
 func firstLoadOf(al *ssa.Alloc) ssa.Value {
